@@ -417,6 +417,10 @@ def cases(tier, seed):
                 for stress in ENERGY_STRESS:
                     out.append({"kind": "energy", "law": law, "mesh": mesh, "v0": v0, "dt": dt, "stress": stress,
                                 "nsteps": energy_steps(tier, law, dt, stress)})
+                    if law == DEFAULT_LAW and mesh == "Q4x2" and (thorough or v0 == "generic"):
+                        # results stored every third step only: a step must not depend on Save_Iter having been called
+                        out.append({"kind": "energy", "law": law, "mesh": mesh, "v0": v0, "dt": dt, "stress": stress,
+                                    "nsteps": energy_steps(tier, law, dt, stress), "save": "third"})
     return out
 
 
@@ -1224,6 +1228,9 @@ def _run_energy(case):
     mesh = zm.build()
     mat = make_law(law, dim)
     key = dict(law=law, mesh=case["mesh"], v0=case["v0"], dt=str(dt), stress=case["stress"])
+    sparse = case.get("save") == "third"
+    if sparse:
+        key["save"] = "third"
     Es, Wsum = [], 0.0
     skipped = None
     buf = io.StringIO()
@@ -1255,7 +1262,9 @@ def _run_energy(case):
                 else:
                     raise
                 break
-            simu.Save_Iter()
+            saved = not sparse or step % 3 == 2
+            if saved:
+                simu.Save_Iter()
             if M is None:
                 M = simu.Get_K_C_M_F(pt)[2]
                 Es.append(0.5 * float(v0 @ (M @ v0)) + W0)
@@ -1264,7 +1273,7 @@ def _run_energy(case):
             Wsum += float(np.abs(We - We_prev).sum())
             We_prev = We
             Es.append(0.5 * float(vel @ (M @ vel)) + float(We.sum()))
-            if case["stress"] == "quadrature":
+            if case["stress"] == "quadrature" and saved:
                 nP = simu.Get_results(-1).get("nPts_e", None)  # saved per-element rule of the last assembly
                 if nP is not None and np.max(nP) >= 33:
                     capped = True
@@ -1287,7 +1296,7 @@ def _run_energy(case):
                 skipped = "quadrature reached its documented cap of 33 points"
     done = Es.size - 1 if Es.size else 0
     # steps completed before a Newton failure are still checked above; the case is then reported as skipped
-    return {"violations": v, "fingerprint": fp("energy", law, case["mesh"], case["v0"], dt, case["stress"], Es[-1] if Es.size else 0.0, done),
+    return {"violations": v, "fingerprint": fp("energy", law, case["mesh"], case["v0"], dt, case["stress"], case.get("save", "every"), Es[-1] if Es.size else 0.0, done),
             "nontrivial": exchanged > 1e-3, "transitions": done, "states": done,
             "outcome": "violation" if v else ("skipped" if skipped else "ok"), "skipped": skipped,
             "info": {"steps_done": done, "energy_exchanged_rel": exchanged}}
